@@ -484,3 +484,7 @@ N('benign.rsa-modulus-test-spelled-lt-1', [(P + 'ssh/key.py', "        if parser
 B('C08.dsa-width-from-float-key-size', ['C08', 'C05'], [(P + 'dnsrec/record.py', "        key_size = (key_params.prime.bit_length() + 7) // 8\n", "        key_size = key.key_size // 8\n")], mention=['DSA'])
 # the ASN.1 decoder gives up with TypeError / AttributeError on elements that do not fit the schema
 B('C02.ldap-decoder-typeerror-escapes', ['C02'], [(P + 'tls/ldap.py', "        except (KeyError, TypeError, AttributeError) as e:", "        except (KeyError, AttributeError) as e:")], mention=['TypeError'])
+# rendering decodes nothing: a second parse call on the way from _asdict is reported although one is a recorded finding
+B('C14.asdict-decodes-bytes', ['C14'], [(P + 'ssh/key.py', "    def host_key_asdict(self):\n        known_hosts = six.ensure_text(base64.b64encode(self.key_bytes), 'ascii')\n",
+  "    def host_key_asdict(self):\n        known_hosts = six.ensure_text(base64.b64encode(self.key_bytes), 'ascii')\n        type(self).parse_exact_size(self.key_bytes)\n")],
+  mention=['C14.R17'])
